@@ -57,6 +57,13 @@ EDITS = [
      "while hole.position.0 > 0 {", 1, "mutant"),
     ("dq_find_max_tie", DQ, "*[Position(1), Position(2)]", "*[Position(2), Position(1)]", 0, "mutant"),
     ("dq_up_heapify_skip", DQ, "if i != pos {", "if i == pos {", 0, "mutant"),
+    ("pq_pop_no_heapify", PQ, "                self.heapify(Position(0));\n", "", 0, "mutant"),
+    ("pq_remove_bound", PQ, "if pos.0 < self.len() {", "if pos.0 <= self.len() {", 0, "mutant"),
+    ("dq_pop_min_no_heapify", DQ, "            self.heapify(i);\n", "", 0, "mutant"),
+    ("dq_pop_max_uses_find_min", DQ, "self.find_max().and_then(|i| {\n            let r = self.store.swap_remove(i);",
+     "self.find_min().and_then(|i| {\n            let r = self.store.swap_remove(i);", 0, "mutant"),
+    ("dq_find_min_nonempty", DQ, "            0 => None,\n            _ => Some(Position(0)),",
+     "            0 => None,\n            _ => Some(Position(1)),", 0, "mutant"),
     ("dq_comment_only", DQ, "fn heapify_min(&mut self, mut i: Position) {",
      "fn heapify_min(&mut self, mut i: Position) {\n        // trickle down on a min level", 0, "neutral"),
     ("comment_only", PQ, "fn heapify(&mut self, mut i: Position) {",
